@@ -110,6 +110,9 @@ class Baton:
         self.switches += 1
         self.current = to
         to.lock.release()
+        if me.abandoned:
+            me.lock.acquire()          # parked for good (daemon thread)
+            raise SimShutdown()
         if not me.lock.acquire(timeout=self.HANG_WALL_S):
             # the other side never came back to a simulator call
             where = "?"
